@@ -1656,9 +1656,41 @@ func ssaRecordedName(f *ssa.Function) string {
 // depthGuardOf: f compares a counter with a constant in an `if` with a returning body and
 // increments that counter, both before position `before` (its first call into the recursion).
 func depthGuardOf(f *ScopeFunc, before token.Pos) string {
+	if g := depthGuardIn(f.Pkg.TypesInfo, f.InspectOwn, before); g != "" {
+		return g
+	}
+	// the guard extracted into a helper: `if err := dec.enterObject(); err != nil { return err }` where the
+	// helper compares the counter with a constant, returns an error and otherwise increments it
 	info := f.Pkg.TypesInfo
-	guard, counter := "", ""
+	found := ""
 	f.InspectOwn(func(x ast.Node) bool {
+		c, ok := x.(*ast.CallExpr)
+		if !ok || c.Pos() > before || found != "" {
+			return true
+		}
+		fn := core.CalleeFunc(info, c)
+		if fn == nil || fn.Pkg() != f.Pkg.Types {
+			return true
+		}
+		cd := core.DeclOf(f.Pkg, fn.Origin())
+		if cd == nil || cd.Body == nil {
+			return true
+		}
+		sig, _ := fn.Type().(*types.Signature)
+		if sig == nil || sig.Results().Len() == 0 || !isErrorType(sig.Results().At(sig.Results().Len()-1).Type()) {
+			return true
+		}
+		if g := depthGuardIn(info, func(v func(ast.Node) bool) { ast.Inspect(cd.Body, v) }, cd.End()); g != "" {
+			found = g + " in " + fn.Name()
+		}
+		return true
+	})
+	return found
+}
+
+func depthGuardIn(info *types.Info, inspect func(func(ast.Node) bool), before token.Pos) string {
+	guard, counter := "", ""
+	inspect(func(x ast.Node) bool {
 		ifs, ok := x.(*ast.IfStmt)
 		if !ok || ifs.Pos() > before || len(ifs.Body.List) == 0 {
 			return true
@@ -1685,7 +1717,7 @@ func depthGuardOf(f *ScopeFunc, before token.Pos) string {
 		return ""
 	}
 	inc := false
-	f.InspectOwn(func(x ast.Node) bool {
+	inspect(func(x ast.Node) bool {
 		switch y := x.(type) {
 		case *ast.IncDecStmt:
 			if y.Tok == token.INC && core.ExprStr(y.X) == counter && y.Pos() < before {
